@@ -145,6 +145,33 @@ def c14_cases(tier):
             yield case, oracle
 
 
+def c14_reason_cases(tier):
+    """`warn` carries the schema's reason verbatim - also a reason with line breaks, tabs, runs of blanks, leading / trailing blanks"""
+    reasons = ["two  spaces", " leading and trailing ", "line one\\nline two", "tab\\there", "Use `name`.\\n  Will be removed in v3."]
+    for rs in reasons:
+        case = {"schema": 'type Query { f: Int @deprecated(reason: "%s") g: Int }' % rs, "query": "query Q { f g }", "options": {"mode": "cli", "deprecation": "warn"}}
+
+        def oracle(res, rs=rs):
+            if res["exit"] != 0 or not res["out"] or not res["out"].get("ok"):
+                return "generation failed for a deprecation reason with unusual whitespace"
+            want = bytes(rs, "utf-8").decode("unicode_escape")
+            m = re.search(r'deprecated\s*\(\s*note\s*=\s*"((?:[^"\\]|\\.)*)"', res["out"]["tokens"])
+            if not m:
+                return "no #[deprecated(note = ..)] on f for the reason %r" % want
+            got = bytes(m.group(1), "utf-8").decode("unicode_escape")
+            if got != want:
+                return "the reason %r is carried as %r (not verbatim)" % (want, got)
+            return None
+        yield case, oracle
+
+
+def c14_all_cases(tier):
+    for x in c14_cases(tier):
+        yield x
+    for x in c14_reason_cases(tier):
+        yield x
+
+
 def c16_cases(tier):
     exprs = ["ID", "ID!", "[ID!]!", "[ID]", "[[ID!]]"] if tier == "quick" else [s for (s, _) in type_exprs(3)]
     # the coercion belongs to the field's type, whatever else is switched on (skip_serializing_none, other-variant, derive lists)
@@ -428,6 +455,10 @@ def c06_cases(tier):
         # 4 type conditions
         ("k4a inline fragment on an unknown type", C06_SCHEMA, "query Q { pet { __typename ... on Nope { name } } }"),
         ("k4a fragment definition on an unknown type", C06_SCHEMA, "fragment F on Nope { name } query Q { me { name } }"),
+        ("k1 unknown field behind a repeated response key (alias)", C06_SCHEMA, "query Q { me { name name: nope } }"),
+        ("k1 unknown field repeated after a valid occurrence", C06_SCHEMA, "query Q { me { age pet { __typename } pet { __typename ... on Dog { nope } } } }"),
+        ("k2a sub-selection on a scalar behind a repeated response key", C06_SCHEMA, "query Q { me { name name { x } } }"),
+        ("k3 undefined fragment behind a repeated response key", C06_SCHEMA, "query Q { me { pet { __typename } pet { __typename ...Missing } } }"),
         ("k4a inline fragment on an unknown type whose body only asks for __typename", C06_SCHEMA, "query Q { pet { __typename ... on Nope { __typename } } }"),
         ("k4a inline fragment on an unknown type at the operation root (body valid on Query)", C06_SCHEMA, "query Q { ... on Root { n } }"),
         ("k4a inline fragment on an unknown type inside an object selection (body valid on the object)", C06_SCHEMA, "query Q { me { ... on Persona { name age } } }"),
@@ -501,7 +532,7 @@ def _structs(t):
 
 def c04_cases(tier):
     """Variables / input objects: rename keeps the GraphQL name, skip_serializing_if exactly on nullable members when the option is on"""
-    types = ["Int", "Int!", "[Int]", "[Int!]", "[Int!]!", "[[Int!]]", "[[Int]!]!"] if tier == "quick" else [e for (e, _) in type_exprs(3)]
+    types = ["Int", "Int!", "[Int]", "[Int!]", "[Int!]!", "[[Int!]]", "[[Int]!]!", "[[Int]]", "[[Int]]!", "[[[Int]]]"] if tier == "quick" else [e for (e, _) in type_exprs(3)]
     for ty in types:
         for skip in (False, True):
             schema = "input Filter { plain: %s type: %s } type Query { f(a: %s, type: %s, filter: Filter): Int }" % (ty, ty, ty, ty)
@@ -513,10 +544,13 @@ def c04_cases(tier):
                     return "generation failed for variables of type %s" % ty
                 st = _structs(norm(res["out"]["tokens"]))
                 nullable = not ty.endswith("!")
+                want_ty = dict(type_exprs(4)).get(ty)
                 for (sname, plain, kw) in (("Variables", "a", "type_"), ("Filter", "plain", "type_")):
                     fs = st.get(sname)
                     if fs is None or plain not in fs or kw not in fs:
                         return "struct %s lacks the expected members (%s)" % (sname, sorted(fs or []))
+                    if want_ty and fs[plain][1] != want_ty:
+                        return "%s.%s declared `%s` has the type `%s`: valid assignments of the declared type are not expressible (the rule gives `%s`)" % (sname, plain, ty, fs[plain][1], want_ty)
                     for f in (plain, kw):
                         attrs = fs[f][0]
                         has_skip = 'skip_serializing_if="Option::is_none"' in attrs
@@ -626,6 +660,26 @@ def c05_cases(tier):
                 return "derive form: the struct name `%s` matches no operation (names are case-sensitive) but code was generated" % sel
             return None
         yield case, oracle_derive
+    # operations and fragments live in separate namespaces: an operation and a fragment defined after it may share a name
+    schema5 = "type Droid { name: String primaryFunction: String } type Query { hero: Droid droid(id: ID!): Droid }"
+    doc5 = "query Hero { hero { name } }\nquery Droid($id: ID!) { droid(id: $id) { ...Droid } }\nfragment Droid on Droid { name primaryFunction }"
+    for (sel, want_vars) in (("Droid", ["id"]), ("Hero", [])):
+        case = {"schema": schema5, "query": doc5, "options": {"mode": "cli", "operation_name": sel}}
+
+        def oracle_ns(res, sel=sel, want_vars=want_vars):
+            if res["exit"] != 0 or not res["out"] or not res["out"].get("ok"):
+                return "generation failed for a document whose operation `Droid` shares its name with a fragment (selected %s)" % sel
+            toks = res["out"]["tokens"]
+            names = re.findall(r'OPERATION_NAME\s*:\s*&\s*(?:\'static\s*)?str\s*=\s*"([^"]*)"', toks)
+            t = norm(toks)
+            var = sorted((_structs(t).get("Variables") or {}).keys())
+            if names != [sel] or var != want_vars:
+                return "operation `%s` of a document where an operation and a fragment share the name `Droid`: operationName %s, Variables members %s (the operation declares %s)" % (sel, names, var, want_vars)
+            rd = sorted((_structs(t).get("ResponseData") or {}).keys())
+            if rd != (["droid"] if sel == "Droid" else ["hero"]):
+                return "operation `%s`: ResponseData has the members %s" % (sel, rd)
+            return None
+        yield case, oracle_ns
     # a document with an operation that has NO name: whatever is generated, every operationName sent must be a name the document defines
     schema4 = "type Query { a(m: String): Int c: Int } type Mutation { d: Int } schema { query: Query mutation: Mutation }"
     for doc4 in ("query ($m: String) { a(m: $m) }", "{ c }", "query Named { c }\nquery ($m: String) { a(m: $m) }", "mutation { d }\nquery Named { c }"):
@@ -1194,6 +1248,27 @@ def c08_cases(tier):
                         k + 1, os.path.basename(os.path.dirname(hist[k]["schema_path"])), os.path.basename(os.path.dirname(hist[k - 1]["schema_path"])))
             return None
         yield {"calls": hist}, oracle_tw
+    # an operation whose selection paths concatenate to the same struct name (`a { bC }` and `aB { c }`): whatever is generated for it
+    # is the same on every call
+    col_s = os.path.join(d, "c08_collide_schema.graphql")
+    col_q = os.path.join(d, "c08_collide.graphql")
+    open(col_s, "w").write("type Leaf { x: Int y: Int } type A { bC: Leaf } type AB { c: Leaf } type Query { a: A aB: AB }")
+    open(col_q, "w").write("query Q { a { bC { x } } aB { c { y } } }")
+    collide = {"schema_path": col_s, "query_path": col_q, "options": {"mode": "cli"}}
+
+    def oracle_col(res):
+        if res["exit"] != 0 or not res["out"]:
+            return "process died: %s" % res["stderr"]
+        rs = res["out"]["results"]
+        alone = run_case({"calls": [collide]})
+        first = alone["out"]["results"][0] if alone["out"] else None
+        for k, r in enumerate(rs):
+            if k == 1:
+                continue        # the unrelated call in between
+            if first is None or r.get("ok") != first.get("ok") or r.get("tokens") != first.get("tokens"):
+                return "call %d of an operation with colliding struct names differs from the same call alone in a fresh process" % (k + 1)
+        return None
+    yield {"calls": [collide, ok, collide, collide]}, oracle_col
     # the same call in two fresh processes
     def oracle3(res):
         if res["exit"] != 0 or not res["out"]:
@@ -1288,7 +1363,7 @@ def run_cli(args, timeout=60):
     ensure_cli_built()
     try:
         p = subprocess.run([CLI_BIN] + args, capture_output=True, text=True, timeout=timeout)
-        return {"exit": p.returncode, "stdout": p.stdout[-2000:], "stderr": p.stderr[-600:], "timeout": False}
+        return {"exit": p.returncode, "stdout": p.stdout[-200000:], "stderr": p.stderr[-600:], "timeout": False}
     except subprocess.TimeoutExpired:
         return {"exit": None, "stdout": "", "stderr": "timeout", "timeout": True}
 
@@ -1429,7 +1504,7 @@ def c12_all_cases(tier):
         yield case, oracle
 
 
-FAMILIES = {"C15": c15_all_cases, "C13": c13_cases, "C03": c03_cases, "C14": c14_cases, "C16": c16_cases, "C17": c17_all_cases, "C11": c11_cases, "C08": c08_cases, "C10": c10_cases, "C06": c06_cases, "C04": c04_cases, "C05": c05_cases, "C12": c12_all_cases, "C09": c09_cases, "C02": c02_cases, "C01": c01_cases}
+FAMILIES = {"C15": c15_all_cases, "C13": c13_cases, "C03": c03_cases, "C14": c14_all_cases, "C16": c16_cases, "C17": c17_all_cases, "C11": c11_cases, "C08": c08_cases, "C10": c10_cases, "C06": c06_cases, "C04": c04_cases, "C05": c05_cases, "C12": c12_all_cases, "C09": c09_cases, "C02": c02_cases, "C01": c01_cases}
 
 
 EXEC_DIR = os.path.join(VERIF, "replay-exec")
